@@ -85,6 +85,40 @@ def concrete_cases(tlc_cases):
     return out
 
 
+# hand-written reader / writer pairs: explicit values (each exercises a branch of the writer: grouping of codes, optional parts,
+# variants); the same idempotence check applies, and values given in the writer's own canonical form must come back unchanged
+HAND = {
+    "Encoding": ["/WinAnsiEncoding", "<< /Type /Encoding /BaseEncoding /WinAnsiEncoding /Differences [1 /bullet /dagger 65 /Alpha] >>",
+                 "<< /Differences [0 /a 2 /b /c 128 /d 255 /e] >>", "<< /Differences [2 /x] >>", "<< /BaseEncoding /MacRomanEncoding >>"],
+    "Font": ["<< /Type /Font /Subtype /Type1 /BaseFont /Helvetica /FirstChar 65 /LastChar 66 /Widths [500 600] /Encoding << /Type /Encoding /Differences [1 /bullet /dagger 40 /x] >> >>",
+             "<< /Type /Font /Subtype /TrueType /BaseFont /Arial /FirstChar 32 /LastChar 33 /Widths [250 300] /Encoding /WinAnsiEncoding /Name /F7 >>",
+             "<< /Type /Font /Subtype /Type1 /BaseFont /Symbol >>"],
+    "Matrix": ["[1 2 3 4 5 6]", "[0.5 0 0 -0.5 10 20]"],
+    "Rectangle": ["[1 2 30 40]", "[-5 -6 7.5 8]"],
+    "Date": ["(D:20240229235958+05'30)", "(D:20240229235958Z)", "(D:20240229235958-08'00)", "(D:19991231000000+00'00)"],
+    "Dest": ["[50 0 R /XYZ 1 2 3]", "[50 0 R /XYZ null 7 2]", "[50 0 R /Fit]", "[50 0 R /FitH 7]", "[50 0 R /FitV 8]", "[50 0 R /FitR 1 2 30 40]", "[50 0 R /FitB]", "[50 0 R /FitBH 9]"],
+    "MaybeNamedDest": ["/Chapter1", "(Chapter 2)", "[50 0 R /Fit]"],
+    "ColorSpace": ["/DeviceRGB", "/DeviceCMYK", "[/Indexed /DeviceRGB 1 <000000FFFFFF>]"],
+    "CidToGidMap": ["/Identity"],
+    "Action": ["<< /S /GoTo /D [50 0 R /Fit] >>", "<< /S /URI /URI (http://example.org/a?b=c) >>"],
+    "PdfString": ["(plain)", "(with \\( parens \\) and \\\\ backslash)", "<00FF80>", "()", "(line\\nbreak\\rreturn)"],
+    "Name": ["/Plain", "/With#20Space", "/", "/A#23B#2F#28"],
+}
+
+
+# entries of a hand-written type that its writer has to keep (the type stores them); other differences are normalisations
+MUST_KEEP = {"Font": ["BaseFont", "FirstChar", "LastChar", "Widths", "Name", "Subtype"], "Encoding": ["Differences"], "Action": ["S", "D", "URI"]}
+
+
+def hand_cases():
+    out = []
+    for ty, vals in HAND.items():
+        for k, v in enumerate(vals):
+            out.append(json.dumps({"model": ty, "dict": v, "aux": {str(a): x for a, x in models.AUX.items()}, "has_other": False, "pattern": "hand:%d" % k,
+                                   "must_keep": MUST_KEEP.get(ty, [])}))
+    return out
+
+
 def run(tier, seed):
     return common.run_enum(PID, tier, seed, "MC_Derive", "derive", ["Derive_1.cfg", "Derive_2.cfg", "Derive_3.cfg", "Derive_4.cfg"],
         [("Derive_w_writer_drops_other.cfg", "writer_drops_other"), ("Derive_w_empty_written_as_null.cfg", "empty_written_as_null")], actions=["Step"],
@@ -96,7 +130,7 @@ def run(tier, seed):
         assumptions=["models without a writer and generic models are listed in the notes (unwritable / not covered)",
                      "values per field type come from a fixed table (lib/models.py); hand-written reader/writer pairs (Font, Encoding, Date, ...) are not part of this run",
                      "dictionaries the reader rejects are not round-trip cases"],
-        case_filter=concrete_cases, exhaustive=True)
+        case_filter=lambda cs: concrete_cases(cs) + hand_cases(), exhaustive=True)
 
 
 def replay(path, seed):
